@@ -1576,6 +1576,35 @@ example : denote (ν := Int) {} exNoLevel = some ⟨"nolevel", 0, true, 0, 3, 0,
     (parse (ν := Int) { filter := some 2 } ([exNoLevel, exBare].flatMap SpecEl.events)).toOption.map
       (fun sps => sps.map (·.id)) = some ["scan=2"] := by decide
 
+/-- **C16.parse_sequence** — parsing a sequence of documents back to back is the map of the
+single-document parse: the result for a document is a function of that document (and its
+configuration) alone; it does not depend on which documents were parsed before it, nor on whether
+they were parsed successfully or failed half-way (inside a zlib stream, a base64 text, an XML
+entity, …). State across `parse` CALLS does not exist in the model; op `mzmlseq` checks that the
+code has none either (`bad:depends_on_previous_document`). -/
+theorem parse_sequence (docs : List (Config × List (Event ν))) :
+    parseSeq docs = docs.map (fun d => parse d.1 d.2) ∧
+    ∀ (pre post : List (Config × List (Event ν))) (d : Config × List (Event ν)),
+      (parseSeq (pre ++ d :: post))[pre.length]? = some (parse d.1 d.2) := by
+  have hmap : ∀ ds : List (Config × List (Event ν)), parseSeq ds = ds.map (fun d => parse d.1 d.2) := by
+    intro ds
+    induction ds with
+    | nil => rfl
+    | cons d rest ih => obtain ⟨c, e⟩ := d; simp [parseSeq, ih]
+  refine ⟨hmap docs, fun pre post d => ?_⟩
+  rw [hmap]
+  simp
+
+/-- non-vacuity: a document that fails inside a zlib stream (declared zlib, not inflatable), then a healthy
+one: the healthy one's result is the one it has alone -/
+example :
+    let bad : List (Event Int) := [.start .spectrum (some "z") none, .start .binaryDataArray none none,
+      .cv .mzArray .absent .absent, .cv .f32 .absent .absent, .cv .zlib .absent .absent, .start .binary none none,
+      .text (.data [120, 156, 1, 2, 3] none), .stop .binary, .stop .binaryDataArray, .stop .spectrum]
+    (parseSeq [({}, bad), ({}, exBare.events)]).map Except.toOption =
+      [none, (parse {} exBare.events).toOption] ∧ (parse {} exBare.events).toOption.map List.length = some 1 := by
+  decide
+
 /-- **C16.faithful_unordered** — without a level filter the reader's result IS a clean function of a
 well-nested element whose children (cvParams, scans, precursors, binary data arrays, each
 well-formed) come in ANY order: the left fold `readingU` — every scalar field and every array kind
